@@ -313,7 +313,8 @@ struct data_t
     std::unique_ptr<dataset_t>            dataset;
 };
 
-data_t make_data(vrng& r, int target_kind, int64_t pool, int min_samples, int max_samples, bool structs, double missing, double target_scale = 1.0)
+data_t make_data(vrng& r, int target_kind, int64_t pool, int min_samples, int max_samples, bool structs, double missing, double target_scale = 1.0,
+                 bool extreme_magnitudes = false)
 {
     vf::schema_opts_t o;
     o.min_features = 2;
@@ -324,7 +325,7 @@ data_t make_data(vrng& r, int target_kind, int64_t pool, int min_samples, int ma
     o.max_classes  = 4;
     o.target_kind  = target_kind;
     data_t d;
-    d.source = std::make_unique<vf::sim_datasource_t>(vf::random_schema(r, o), r.next(), missing, true, 0);
+    d.source = std::make_unique<vf::sim_datasource_t>(vf::random_schema(r, o), r.next(), missing, true, extreme_magnitudes ? 10 : 0);
     d.source->target_scale(target_scale);
     d.source->load();
     d.dataset = std::make_unique<dataset_t>(*d.source, static_cast<size_t>(pool));
@@ -453,7 +454,8 @@ void scenario_dataset(ctx_t& c)
     auto&      r        = c.wl;
     const auto nthreads = c.knob("threads", r.coin(0.7) ? r.range(2, 4) : r.range(2, 8));
     const auto pool     = c.knob("pool", r.range(1, 16));
-    auto       d        = make_data(r, static_cast<int>(r.range(0, 4)), pool, 4, 60, true, r.coin(0.5) ? 0.0 : 0.2);
+    const bool extreme  = r.coin(0.3);
+    auto       d        = make_data(r, static_cast<int>(r.range(0, 4)), pool, 4, 60, true, r.coin(0.5) ? 0.0 : 0.2, 1.0, extreme);
     const auto batch    = r.range(1, 20);
     std::vector<indices_t> lists;
     for (int64_t t = 0; t < nthreads; ++t)
@@ -561,10 +563,24 @@ fitted_t fit_model(vrng& r, const dataset_t& dataset, const indices_t& samples, 
         rwlearners_t protos;
         for (const auto& id : wlearner_t::all().ids())
         {
-            if (r.coin(0.5) || protos.empty())
+            // fit-vs-fit comparisons (well_conditioned): decision trees end in leaves of two or three samples that several features
+            // separate equally well, and tables fit a categorical feature exactly, after which every candidate scores the same up to
+            // 1e-16 - both are factories of numerical near-ties (known finding F9). The comparison keeps to stumps, hinges and
+            // affine learners; trees and tables are covered by the weak-learner differential of C10 with identical inputs.
+            const bool near_tie_prone = id == "dtree" || id.find("table") != string_t::npos;
+            const bool take           = r.coin(0.5) || protos.empty();
+            if (take && !(well_conditioned && near_tie_prone))
             {
                 protos.emplace_back(wlearner_t::all().get(id));
+                if (getenv("VERIF_DEBUG_WLOG") != nullptr)
+                {
+                    protos.back()->logger(make_stdout_logger());
+                }
             }
+        }
+        if (protos.empty())
+        {
+            protos.emplace_back(wlearner_t::all().get("stump"));
         }
         model->prototypes(std::move(protos));
         auto res = model->fit(dataset, samples, *loss, params);
@@ -675,14 +691,17 @@ void scenario_fit(ctx_t& c)
     using history_t = std::vector<std::vector<std::array<double, 4>>>; // per fold of the optimum trial: per kept round (errors / losses)
     history_t  hist_ref, hist_sim;
     const auto run_fit = [&](vrng& wr, int ncores, int64_t npool, tensor4d_t& predictions, indices_t& features, tensor1d_t& optimum, std::string& what,
-                             history_t& history, double target_scale = 1.0)
+                             history_t& history, double target_scale = 1.0, int64_t batch_override = 0)
     {
         simrt_set_cores(ncores);
-        auto       d       = make_data(wr, 1, npool, 30, 60, false, 0.0, target_scale);
+        // (gradient boosting also sees features at extreme magnitudes - subnormal numbers, physical units; linear models stay
+        // well conditioned, see the tolerance note below)
+        const bool extreme = wr.coin(0.3) && which >= 4;
+        auto       d       = make_data(wr, 1, npool, 30, 60, false, 0.0, target_scale, extreme);
         const auto samples = arange(0, d.dataset->samples());
         const auto params  = fast_params(wr, folds, true);
         ml::result_t result;
-        auto         fitted = fit_model(wr, *d.dataset, samples, params, which, batch, &result, true);
+        auto         fitted = fit_model(wr, *d.dataset, samples, params, which, batch_override > 0 ? batch_override : batch, &result, true);
         what                = fitted.what;
         for (const auto& p : fitted.model->parameters())
         {
@@ -776,7 +795,7 @@ void scenario_fit(ctx_t& c)
     // count there is the known finding F9, not a new one.
     const auto numerically_unstable = [&]()
     {
-        for (const double eps : {1e-13, -1e-13, 1e-11, -1e-11})
+        const auto differs = [&](double target_scale, int64_t batch_override)
         {
             vrng        wl = wl_ref0;
             tensor4d_t  p;
@@ -784,8 +803,23 @@ void scenario_fit(ctx_t& c)
             tensor1d_t  o;
             std::string w;
             history_t   h;
-            run_fit(wl, 1, 1, p, f, o, w, h, 1.0 + eps);
-            if (!same_fit(pred_ref, feat_ref, p, f, 1e-6))
+            run_fit(wl, 1, 1, p, f, o, w, h, target_scale, batch_override);
+            return !same_fit(pred_ref, feat_ref, p, f, 1e-6);
+        };
+        // (a) the same re-association that threads cause, on ONE core: other batch sizes group the additions of the single
+        //     accumulator differently (the statement also says that results do not depend on the batch size)
+        for (const int64_t other : {10, 11, 13, 17, 19, 23, 29, 37, 53, 97, 10000})
+        {
+            if (other != batch && differs(1.0, other))
+            {
+                c.probe("one_core_fit_unstable_under_reassociation");
+                return true;
+            }
+        }
+        // (b) targets multiplied by 1 +- 1e-13 / 1e-11
+        for (const double eps : {1e-13, -1e-13, 1e-11, -1e-11})
+        {
+            if (differs(1.0 + eps, 0))
             {
                 c.probe("one_core_fit_unstable_under_1e-11_perturbation");
                 return true;
